@@ -128,6 +128,14 @@ Proof.
     rewrite digit_not_eon_b by assumption. f_equal. now apply IH.
 Qed.
 
+Lemma find_idx_digits_end ds : forallb (fun d => (d <? 10)%nat) ds = true -> find_idx (digits_str ds ++ []) fnc_eon_b = length ds.
+Proof.
+  intros Hd. induction ds as [|d r IH]; cbn [digits_str map app find_idx length]; [reflexivity|].
+  cbn [forallb] in Hd. apply andb_prop in Hd as [H1 H2]. apply Nat.ltb_lt in H1.
+  rewrite digit_not_eon_b by assumption. f_equal. now apply IH.
+Qed.
+(** the text behind a multiplier: the end of the text, or a character that ends the count *)
+Definition endk (K : pystr) : Prop := K = [] \/ stopk K.
 Definition after_tail (after : option sym) (K : pystr) : pystr := osym_str after ++ K.
 Lemma after_tail_head after K : cont K -> exists h tl, after_tail after K = h :: tl /\ str_in [h] fnc_eon_b = true.
 Proof.
